@@ -99,7 +99,7 @@ def execute(scn, prefix=(), keep_root=False, tracer=None, strict=False, name="pr
     files = scn["files"]
     root = driver.fresh_project(files, name=name, config=scn.get("config", ""),
                                 index_rows=[tuple(r) for r in scn["index_rows"]] if scn.get("index_rows") is not None else None,
-                                pre_tree=scn.get("pre_tree"))
+                                pre_tree=scn.get("pre_tree"), symlink_out=bool(scn.get("symlink_out")))
     ch = Chooser(prefix, strict=strict)
     vk = vkmod.VK(chooser=ch, behaviours=behaviours_from_json(scn.get("behaviours")), project_root=root,
                   unrelated=scn.get("unrelated", False), horizon=scn.get("horizon", 4000))
